@@ -279,8 +279,31 @@ func (ex *Exec) sortSlice(callee *ssa.Function, cc *ssa.CallCommon, p token.Pos)
 		postI, preJ := c.elemAt(k, hPost, s, bi), c.elemAt(k, h, s, bj)
 		c.assume(T(SBool, "(forall ((i!pa Int)) (! (=> (and (<= 0 i!pa) (< i!pa (s.len %[1]s))) (exists ((j!pa Int)) (and (<= 0 j!pa) (< j!pa (s.len %[1]s)) (= %[2]s %[3]s)))) :pattern (%[2]s)))", s.S, postI.S, preJ.S))
 		c.assume(T(SBool, "(forall ((j!pa Int)) (! (=> (and (<= 0 j!pa) (< j!pa (s.len %[1]s))) (exists ((i!pa Int)) (and (<= 0 i!pa) (< i!pa (s.len %[1]s)) (= %[2]s %[3]s)))) :pattern (%[3]s)))", s.S, postI.S, preJ.S))
+		// and as a bijection of positions (a permutation keeps multiplicities: distinct elements stay distinct)
+		c.fresh++
+		pf, qf := fmt.Sprintf("perm!%d", c.fresh), fmt.Sprintf("perminv!%d", c.fresh)
+		c.decl("fn:"+pf, fmt.Sprintf("(declare-fun %s (Int) Int)", pf))
+		c.decl("fn:"+qf, fmt.Sprintf("(declare-fun %s (Int) Int)", qf))
+		prePI := c.elemAt(k, h, s, Term{"(" + pf + " i!pa)", c.idxSort()})
+		postQJ := c.elemAt(k, hPost, s, Term{"(" + qf + " j!pa)", c.idxSort()})
+		c.assume(T(SBool, "(forall ((i!pa Int)) (! (=> (and (<= 0 i!pa) (< i!pa (s.len %[1]s))) (and (<= 0 (%[4]s i!pa)) (< (%[4]s i!pa) (s.len %[1]s)) (= (%[5]s (%[4]s i!pa)) i!pa) (= %[2]s %[3]s))) :pattern (%[2]s)))", s.S, postI.S, prePI.S, pf, qf))
+		c.assume(T(SBool, "(forall ((j!pa Int)) (! (=> (and (<= 0 j!pa) (< j!pa (s.len %[1]s))) (and (<= 0 (%[4]s j!pa)) (< (%[4]s j!pa) (s.len %[1]s)) (= (%[5]s (%[4]s j!pa)) j!pa) (= %[2]s %[3]s))) :pattern (%[2]s)))", s.S, preJ.S, postQJ.S, qf, pf))
 	}
 	c.trust("sort functions permute the elements of their slice argument and change nothing else; comparators are side-effect free")
+	if (name == "slices.Sort" || name == "sort.Ints" || name == "sort.Strings") && c.Mode == ArithInt && (isInteger(sl.Elem()) || isString(sl.Elem())) {
+		// natural order: the result is ascending
+		hPost := c.heapGet(ex.st, k)
+		a, b := c.elemAt(k, hPost, s, Term{"a!so", c.idxSort()}), c.elemAt(k, hPost, s, Term{"b!so", c.idxSort()})
+		var le string
+		if isString(sl.Elem()) {
+			c.decl("fn:str.lt", "(declare-fun str.lt (Str Str) Bool)")
+			le = fmt.Sprintf("(not (str.lt %s %s))", b.S, a.S)
+		} else {
+			le = fmt.Sprintf("(<= %s %s)", a.S, b.S)
+		}
+		c.assume(Implies(ex.rch, T(SBool, "(forall ((a!so Int) (b!so Int)) (! (=> (and (<= 0 a!so) (< a!so b!so) (< b!so (s.len %s))) %s) :pattern (%s %s)))", s.S, le, a.S, b.S)))
+		c.trust("slices.Sort / sort.Ints / sort.Strings leave their argument in ascending order")
+	}
 	if less := ex.sortComparator(name, cc); less != nil && c.Mode == ArithInt {
 		// The comparator closure carries a contract with a clause "ensures [less] result == E(i, j)". The sort's
 		// guarantee (the result is ordered: no later element is less than an earlier one) holds when E is a strict
@@ -1173,9 +1196,12 @@ func (ex *Exec) doAppend(cc *ssa.CallCommon, p token.Pos) *Val {
 	if c.Mode == ArithInt {
 		c.assume(T(SBool, "(<= %s 281474976710655)", newCap.S))
 	}
-	resSlice := c.define("app.res", Ite(fits,
+	// the result is a declared constant (not a define-fun macro): it appears inside E-matching patterns of the facts
+	// below and of contract quantifiers, where an if-then-else term is not allowed
+	resSlice := c.freshConst("app.res", SSl)
+	c.assume(Eq(resSlice, Ite(fits,
 		ex.mkSlice(sliceArr(s), ex.sliceOff(s), newLen, ex.sliceCap(s)),
-		ex.mkSlice(ref, c.idxLit(0), newLen, newCap)))
+		ex.mkSlice(ref, c.idxLit(0), newLen, newCap))))
 	// contents of the result array
 	na := c.freshConst("app.arr", arrSort)
 	oldArr := c.define("app.old", Select(h, sliceArr(s), arrSort))
@@ -1210,6 +1236,20 @@ func (ex *Exec) doAppend(cc *ssa.CallCommon, p token.Pos) *Val {
 		c.note("append in bit-vector mode: contents of the result are unconstrained")
 	}
 	c.heapSet(ex.st, k, Store(h, sliceArr(resSlice), na))
+	if c.Mode == ArithInt && !hasBoundVar(s.S) && !hasBoundVar(resSlice.S) {
+		// the same facts through the element accessor used by contract expressions (index argument bare, so that
+		// E-matching finds them from quantified invariants over the result): the old elements keep their positions,
+		// the appended ones follow
+		hPost := c.heapGet(ex.st, k)
+		bi := Term{"i!ap", c.idxSort()}
+		c.assume(T(SBool, "(forall ((i!ap Int)) (! (=> (and (<= 0 i!ap) (< i!ap (s.len %s))) (= %s %s)) :pattern (%s)))", s.S,
+			c.elemAt(k, hPost, resSlice, bi).S, c.elemAt(k, h, s, bi).S, c.elemAt(k, hPost, resSlice, bi).S))
+		if n := litInt(addLen); n != nil && n.IsInt64() && n.Int64() <= 4 {
+			for i := int64(0); i < n.Int64(); i++ {
+				c.assume(Eq(c.elemAt(k, hPost, resSlice, T(c.idxSort(), "(+ (s.len %s) %d)", s.S, i)), elemAt(c.idxLit(i))))
+			}
+		}
+	}
 	return &Val{T: resSlice, Ty: st}
 }
 
